@@ -14,6 +14,7 @@ CONFIGS = {
     "dbg-scalar": {"profile": "dbg", "features": ["scalar-math"]},
     "assert": {"features": ["glam-assert"]},
     "assert-scalar": {"features": ["glam-assert", "scalar-math"]},
+    "assert-libm": {"features": ["glam-assert", "libm"]},
     "asan": {"toolchain": "nightly", "rustflags": "-Zsanitizer=address -Cforce-frame-pointers=yes", "target": X86},
     "asan-coresimd": {"toolchain": "nightly", "rustflags": "-Zsanitizer=address -Cforce-frame-pointers=yes", "target": X86, "features": ["core-simd"]},
     "miri-sse2": {"toolchain": "nightly", "kind": "miri"},
@@ -75,6 +76,7 @@ PLAN = {
     "C20": {"runs": [
         {"engine": "e_api", "config": "assert", "tiers": Q},
         {"engine": "e_api", "config": "assert-scalar", "tiers": Q},
+        {"engine": "e_api", "config": "assert-libm", "tiers": Q},
         {"engine": "e_api", "config": "sse2", "tiers": Q},
         {"engine": "e_api", "config": "scalar", "tiers": T},
     ] + [
